@@ -401,6 +401,7 @@ func runC01(c *Ctx) {
 	// own generator: the narrowing / shared-path / same-stage-control families must not shift
 	// the random stream of the generated programs below
 	cases = append(cases, c01NarrowFamilies(rand.New(rand.NewSource(c.Seed*104729+17)), c.Thorough)...)
+	cases = append(cases, c01MapStaticFamily(rand.New(rand.NewSource(c.Seed*104729+23)), c.Thorough)...)
 	optsList := []GenOpts{
 		{},
 		{MaxDepth: 3, MaxCalls: 3},
@@ -464,7 +465,8 @@ func runC01(c *Ctx) {
 				final = "error"
 			}
 			r.hist("final:" + final)
-			if strings.HasPrefix(cs.name, "family/narrow-") || strings.HasPrefix(cs.name, "family/disabled-same-stage") {
+			if strings.HasPrefix(cs.name, "family/narrow-") || strings.HasPrefix(cs.name, "family/disabled-same-stage") ||
+				strings.HasPrefix(cs.name, "family/map-static") {
 				cls := strings.Join(strings.SplitN(strings.TrimPrefix(cs.name, "family/"), "-", 3)[:2], "-")
 				r.hist("family:" + cls + ":" + final)
 				if final != "complete" && si == cs.specs[0] {
